@@ -111,6 +111,13 @@ func (g *gen) reentrant() (main *Form, shape string) {
 		body = append([]*Form{g.tr()}, body...)
 	}
 	g.defs[idx] = body
+	if g.rng.Chance(50) { // the function has a closure: its call scopes have two parents
+		dc := []dscope{{}}
+		if g.rng.Bool() {
+			dc = append(dc, dscope{})
+		}
+		g.setCtx(int(idx), dc)
+	}
 	// several calls; the counter is rewound before each, so that the first call completes and later ones re-enter
 	ncalls := 2 + g.rng.Intn(2)
 	var calls []*Form
